@@ -98,6 +98,7 @@ def check(chk: Check) -> None:
     chk.paths += len(distinct)
     chk.functions.add(construct)
     probe(chk)
+    chk.part("stream-start", lambda: positioned(chk))
     chk.part("writer-prefix", lambda: writer_prefix(chk))
     chk.part("history", lambda: history(chk))
     chk.rule("C08.TABLE.writer-mode", "RDFLibJellySerializer.serialize writes length-prefixed frames iff params.delimited, for every logical type it accepts; non-delimited output is a single frame", floor=20)
@@ -158,6 +159,56 @@ def probe(chk: Check) -> None:
                         chk.fail(rule, inst, construct, f"frames returned ({[len(K.Kit.rows_of(f)) for f in got]} rows) != frames in the input ({[len(K.Kit.rows_of(f)) for f in frames]} rows)" + (": an empty frame is taken for the end of the input" if len(got) < len(frames) and hdr[0] == 0 else ""))
                     else:
                         chk.ok(rule, inst, {"frames": len(got), "reader": sorted(used)})
+
+
+def positioned(chk: Check) -> None:
+    """C08.PATH.stream-start: the framing is decided from the first bytes OF THE STREAM, i.e. from the position at which
+    the caller hands the source over (a Jelly payload embedded after an application header), for every public parser,
+    both modes and the 0x0A-coincidence headers."""
+    prog = chk.program
+    rule = "C08.PATH.stream-start"
+    chk.rule(rule, "every public parser classifies a stream handed over at a non-zero position (payload after a 4-byte application header) by the bytes at that position and reads it in that mode", floor=40)
+    parsers = [(integ, mod, name) for integ, mod in (("generic", K.GP), ("rdflib", K.RP)) for name in ("parse_jelly_flat", "parse_jelly_grouped", "parse_jelly_to_graph")]
+    for integ, mod, parser in parsers:
+        for delim in (True, False):
+            for hdr in ((b"\x20\x0a\x05", b"\x0a\x0a\x05") if delim else (b"\x0a\x05\x0a", b"\x0a\x0a\x0a")):
+                for src, skw in (("BytesIO", dict(seekable=True, buffered=True)), ("seekable BufferedReader", dict(seekable=True, buffered=False, user_buffered_reader=True))):
+
+                    def scenario(it: Interp) -> Any:
+                        k = K.Kit(it)
+                        w = K.Wire(it)
+                        frames = [w.frame([w.options_row(1, 1)] + w.statement_rows(1, 1, "a"))]
+                        if delim:
+                            frames.append(w.frame(w.statement_rows(1, 1, "b")))
+                        # the application header itself starts like a stream of the OTHER mode
+                        app = b"\x0a\x05\x0a\x00" if delim else b"\x20\x0a\x05\x00"
+                        inp = K.models.make_input(AIter(iter(frames), "frames"), app + hdr, start=4, **skw)
+                        out = k.call(k.get(mod, parser), inp)
+                        if not parser.endswith("to_graph"):
+                            it.drain(out)
+                        used = set()
+                        for e in it.events:
+                            if (e["kind"] == "io" and e["method"] == "parse_length_prefixed") or e["kind"] == "parse_input":
+                                used.add("length-prefixed frames")
+                            elif e["kind"] == "frame_pull" and e.get("whole"):
+                                used.add("whole input as one frame")
+                        return sorted(used), [e for e in it.events if e["kind"] == "misaligned"]
+
+                    inst = f"{integ}.{parser} | {src} | delimited={delim} header={hdr.hex()} after a 4-byte application header"
+                    construct = f"pyjelly.integrations.{integ}.parse.{parser}:stream-start"
+                    for it, out in explore(prog, scenario, max_paths=8, generic_strings=True):
+                        chk.paths += 1
+                        chk.saw_functions(it)
+                        if out[0] != "ok":
+                            chk.fail(rule, inst, construct, f"valid {'delimited' if delim else 'non-delimited'} payload after an application header raises {it.exc_class_name(out[1].exc)} at {out[1].site}")
+                            continue
+                        used, mis = out[1]
+                        if mis:
+                            chk.fail(rule, inst, construct, f"the stream is read from offset {mis[0]['offset']} relative to where the caller handed the source over: the framing is decided from bytes that are not the first bytes of the stream")
+                        elif used != (["length-prefixed frames"] if delim else ["whole input as one frame"]):
+                            chk.fail(rule, inst, construct, f"{'delimited' if delim else 'non-delimited'} payload is read as {used}")
+                        else:
+                            chk.ok(rule, inst, {"reader": used})
 
 
 BOUNDARY_SIZES = [0, 1, 9, 10, 11, 126, 127, 128, 129, 255, 256, 16382, 16383, 16384, 16385, 2**21 - 1, 2**21, 2**21 + 1, 2**28 - 1, 2**28, 2**31 - 1]
